@@ -56,6 +56,8 @@ class Obligation:
             "detail": self.detail,
             "bounded": self.bounded,
             "native_replay": self.native,
+            # the query of a refuted / undecided obligation travels with the verdict (replay files carry it)
+            "smt2": self.smt2 if self.status != "discharged" else None,
         }
 
 
@@ -445,6 +447,7 @@ class Ctx:
                 ob.status, ob.solver = "refuted", "z3"
                 ob.z3model = s.model()
                 ob.model = model_to_json(ob.z3model)
+                ob.smt2 = dump_smt2(self.pc_raw + [z3.Not(goal)])
             else:
                 ob.status, ob.solver = "unknown", "z3"
             s.pop()
